@@ -244,3 +244,94 @@ def point_class(g, P, cache={}):
         cache.clear()
     cache[key] = cl
     return cl
+
+
+# ---------------------------------------------------------------------------- polynomial roots over Fq
+
+def _ptrim(a):
+    while a and a[-1] % Q == 0:
+        a.pop()
+    return a
+
+
+def _pmod(a, m):
+    a = [x % Q for x in a]
+    dm = len(m) - 1
+    inv = pow(m[-1], -1, Q)
+    while len(a) - 1 >= dm and a:
+        c = a[-1] * inv % Q
+        if c:
+            off = len(a) - 1 - dm
+            for i in range(dm + 1):
+                a[off + i] = (a[off + i] - c * m[i]) % Q
+        a.pop()
+    return _ptrim(a)
+
+
+def _pmul(a, b):
+    if not a or not b:
+        return []
+    r = [0] * (len(a) + len(b) - 1)
+    for i, x in enumerate(a):
+        if x:
+            for j, y in enumerate(b):
+                r[i + j] = (r[i + j] + x * y) % Q
+    return r
+
+
+def _ppowmod(base, e, m):
+    r = [1]
+    for bit in bin(e)[2:]:
+        r = _pmod(_pmul(r, r), m)
+        if bit == "1":
+            r = _pmod(_pmul(r, base), m)
+    return r
+
+
+def _pgcd(a, b):
+    a, b = _ptrim(list(a)), _ptrim(list(b))
+    while b:
+        a, b = b, _pmod(a, b)
+    if a:
+        inv = pow(a[-1], -1, Q)
+        a = [x * inv % Q for x in a]
+    return a
+
+
+def poly_roots_fq(coeffs, rng=None):
+    """all roots in Fq of the polynomial sum coeffs[i] x^i (Cantor-Zassenhaus on the split part)"""
+    rng = rng or random.Random(7)
+    m = _ptrim([c % Q for c in coeffs])
+    xq = _ppowmod([0, 1], Q, m)
+    h = list(xq) + [0] * max(0, 2 - len(xq))
+    h[1] = (h[1] - 1) % Q
+    g = _pgcd(m, _ptrim(h))
+    roots = []
+
+    def split(p):
+        if len(p) <= 1:
+            return
+        if len(p) == 2:
+            roots.append((-p[0]) * pow(p[1], -1, Q) % Q)
+            return
+        while True:
+            a = rng.randrange(Q)
+            t = _ppowmod([a, 1], (Q - 1) // 2, p)
+            t = list(t) + [0] * max(0, 1 - len(t))
+            t[0] = (t[0] - 1) % Q
+            d = _pgcd(p, _ptrim(t))
+            if 1 < len(d) < len(p):
+                split(d)
+                # quotient p / d
+                qd, rem = [], list(p)
+                while len(rem) >= len(d):
+                    c = rem[-1] * pow(d[-1], -1, Q) % Q
+                    qd.insert(0, c)
+                    off = len(rem) - len(d)
+                    for i in range(len(d)):
+                        rem[off + i] = (rem[off + i] - c * d[i]) % Q
+                    rem.pop()
+                split(_ptrim(qd))
+                return
+    split(g)
+    return sorted(set(roots))
